@@ -29,7 +29,7 @@ import (
 //	                          keytype ∈ rsassapkcs1, rsassapss, jwtrsassapkcs1,
 //	                          jwtrsassapss, compositemldsa; bits ∈ 2048, 3072, 4096
 //	slhdsa["<HASH>-<n>{s,f}"] SLH-DSA private key bytes (hex), all twelve sets
-//	mldsa["ML-DSA-<k>"]       ML-DSA 32-byte seeds (hex), the ML-DSA half of composite keys
+//	mldsa["MLDSA<k>"]         ML-DSA 32-byte seeds (hex), k ∈ 44, 65, 87; the ML-DSA half of composite keys
 //
 // Regenerate with:  cd /verif/sim && go1.26.8 run ./catalog/gen
 //
@@ -161,12 +161,14 @@ func secret(s string) secretdata.Bytes {
 // anything. ok is false for entries that are not pooled (see Pooled).
 // idRequirement is ignored (taken as 0) when e has no ID requirement.
 //
-// PoolKey itself draws no randomness. The library's RSA-SSA-PSS NewPrivateKey
-// constructors, however, run a sign/verify self-check, and that signature
-// draws its salt from crypto/rand.Reader (SaltLengthBytes bytes; nothing for
-// salt length 0). This applies to rsassapss, jwtrsassapss and the composite
-// ML-DSA sets with an RSA-PSS component; all other pooled entries are built
-// without a single RNG read (asserted by TestPoolKeyRNG).
+// PoolKey itself draws no randomness. The library's rsassapss.NewPrivateKey,
+// however, runs a sign/verify self-check, and that signature draws its salt
+// from crypto/rand.Reader in one read (SaltLengthBytes bytes; for salt length
+// 0 crypto/rsa takes it as "auto" and draws modulus bytes - hash bytes - 2).
+// This applies to rsassapss entries and to the composite ML-DSA sets with an
+// RSA-PSS component; all other pooled entries (rsassapkcs1, both JWT RSA key
+// types, SLH-DSA, composite with RSA-PKCS1) are built without a single RNG
+// read. TestPoolKeyRNG asserts exactly this.
 func PoolKey(e Entry, i int, idRequirement uint32) (k key.Key, ok bool, err error) {
 	if !Pooled(e) {
 		return nil, false, nil
